@@ -311,13 +311,21 @@ def rule_header(rep, idx):
                 vid = x['referencedDecl']['id']
         vd = idx.by_id.get(vid)
         shr2 = False
+        scalings = []
         if vd is not None:
             for x in walk(vd):
+                if x['kind'] == 'BinaryOperator' and x.get('opcode') in ('>>', '/', '<<', '*'):
+                    scalings.append((x['opcode'], cast.const_int(children(x)[1], idx)))
                 if x['kind'] == 'BinaryOperator' and x.get('opcode') == '>>' and cast.const_int(children(x)[1], idx) == 2 and \
                         any(y['kind'] == 'MemberExpr' and y.get('name') == 'programSizeBytes' for y in walk(children(x)[0])):
                     shr2 = True
                 if x['kind'] == 'BinaryOperator' and x.get('opcode') == '/' and cast.const_int(children(x)[1], idx) == 4:
                     shr2 = True
+        plain_member = vd is not None and children(vd) and cast.member_ref(children(vd)[-1]) is not None
+        if not shr2 and not scalings and not plain_member:
+            # neither a scaled nor an unscaled copy of the size member: the header word is computed in a form this rule does not know
+            rep.undecided('R6', 'emitBin:header-word', 'the header word is not written as programSizeBytes >> 2 or / 4: idiom not recognised', pos(f.node))
+            return
         four = False
         for x in walk(args[1]):
             if x['kind'] == 'UnaryExprOrTypeTraitExpr' and 'int' in (x.get('argType') or {}).get('qualType', ''):
